@@ -1388,7 +1388,12 @@ static void part_int_helpers(vf::Run& R)
                             R.violation("int:eumod-out-of-range", cid,
                                         fmt("eumod<%s>(%.17g, %.17g) -> %.17g outside [0, denom)", tn,
                                             double(n), double(d), double(got)));
-                        else if (std::fabs((long double)got - rl) > (long double)ulp_d)
+                        else if (std::min(std::fabs((long double)got - rl),
+                                          (long double)d - std::fabs((long double)got - rl))
+                                 > (long double)ulp_d)
+                            // (distance on the circle of circumference d: an exact remainder
+                            // within an ulp below d has no representable value in [0, d) nearer
+                            // than d itself, and 0 is congruent to d)
                             R.violation("int:eumod-not-congruent", cid,
                                         fmt("eumod<%s>(%.17g, %.17g) -> %.17g, exact remainder %.21Lg "
                                             "(more than one ulp of the denominator apart)",
